@@ -47,3 +47,88 @@ pub(crate) unsafe fn slim128_from_parts<const BYTES: usize>(
     let masks: [Mask<__m128i>; BYTES] = core::array::from_fn(mk);
     Slim { teddy, masks }
 }
+
+// ---- 256-bit variants (slim AVX2: 8 buckets; fat AVX2: 16 buckets)
+
+#[cfg(target_arch = "x86_64")]
+fn masks256_to_raw<const BYTES: usize>(
+    masks: &[Mask<core::arch::x86_64::__m256i>; BYTES],
+) -> Vec<([u8; 32], [u8; 32])> {
+    masks
+        .iter()
+        .map(|m| unsafe {
+            (core::mem::transmute(m.lo), core::mem::transmute(m.hi))
+        })
+        .collect()
+}
+
+#[cfg(target_arch = "x86_64")]
+unsafe fn masks256_from<const BYTES: usize>(
+    masks: &'static [([u8; 32], [u8; 32])],
+) -> [Mask<core::arch::x86_64::__m256i>; BYTES] {
+    use core::arch::x86_64::__m256i;
+    let mk = |i: usize| Mask::<__m256i> {
+        lo: core::mem::transmute::<[u8; 32], __m256i>(masks[i].0),
+        hi: core::mem::transmute::<[u8; 32], __m256i>(masks[i].1),
+    };
+    core::array::from_fn(mk)
+}
+
+#[cfg(target_arch = "x86_64")]
+pub(crate) fn slim256_to_raw<const BYTES: usize>(
+    s: &Slim<core::arch::x86_64::__m256i, BYTES>,
+) -> (Vec<Vec<u32>>, Vec<([u8; 32], [u8; 32])>) {
+    let buckets = s
+        .teddy
+        .buckets
+        .iter()
+        .map(|b| b.iter().map(|p| p.as_u32()).collect())
+        .collect();
+    (buckets, masks256_to_raw(&s.masks))
+}
+
+#[cfg(target_arch = "x86_64")]
+pub(crate) fn fat256_to_raw<const BYTES: usize>(
+    s: &Fat<core::arch::x86_64::__m256i, BYTES>,
+) -> (Vec<Vec<u32>>, Vec<([u8; 32], [u8; 32])>) {
+    let buckets = s
+        .teddy
+        .buckets
+        .iter()
+        .map(|b| b.iter().map(|p| p.as_u32()).collect())
+        .collect();
+    (buckets, masks256_to_raw(&s.masks))
+}
+
+/// Rebuild a slim 256-bit Teddy around borrowed statics, loop free. The first
+/// eight entries of `b` are its buckets.
+#[cfg(target_arch = "x86_64")]
+pub(crate) unsafe fn slim256_from_parts<const BYTES: usize>(
+    patterns: Arc<Patterns>,
+    b: &'static [&'static [u32]; 16],
+    masks: &'static [([u8; 32], [u8; 32])],
+) -> Slim<core::arch::x86_64::__m256i, BYTES> {
+    let buckets: [Vec<PatternID>; 8] = [
+        alias(b[0]), alias(b[1]), alias(b[2]), alias(b[3]),
+        alias(b[4]), alias(b[5]), alias(b[6]), alias(b[7]),
+    ];
+    let teddy: Teddy<8> = Teddy { patterns, buckets };
+    Slim { teddy, masks: masks256_from::<BYTES>(masks) }
+}
+
+/// Rebuild a fat 256-bit Teddy (16 buckets) around borrowed statics.
+#[cfg(target_arch = "x86_64")]
+pub(crate) unsafe fn fat256_from_parts<const BYTES: usize>(
+    patterns: Arc<Patterns>,
+    b: &'static [&'static [u32]; 16],
+    masks: &'static [([u8; 32], [u8; 32])],
+) -> Fat<core::arch::x86_64::__m256i, BYTES> {
+    let buckets: [Vec<PatternID>; 16] = [
+        alias(b[0]), alias(b[1]), alias(b[2]), alias(b[3]),
+        alias(b[4]), alias(b[5]), alias(b[6]), alias(b[7]),
+        alias(b[8]), alias(b[9]), alias(b[10]), alias(b[11]),
+        alias(b[12]), alias(b[13]), alias(b[14]), alias(b[15]),
+    ];
+    let teddy: Teddy<16> = Teddy { patterns, buckets };
+    Fat { teddy, masks: masks256_from::<BYTES>(masks) }
+}
